@@ -1000,6 +1000,12 @@ class Tensor:
 
         (view_parent,) = self._creator.variables
 
+        if view_parent is not self._base and view_parent._base is not self._base:
+            # the chain of views connecting ``self`` to its base was cut
+            # further up (``view_parent`` was disconnected from the base):
+            # ``view_parent.grad`` no longer mirrors the base's gradient
+            return None
+
         # recursively fetches grad from parent
         grad = view_parent.grad
         with _track.no_autodiff:
